@@ -228,6 +228,14 @@ pub fn prop(case: &Case) -> CaseResult {
                 }
             }
         }
+        // The tracker's receive buffers take 8192 payload bytes (mio: BUFFER_SIZE; io_uring:
+        // BUFFER_SIZE + 64 incl. the message header): a longer datagram is cut by the kernel and
+        // what the tracker *receives* is its first 8192 bytes. The harness sends and judges
+        // exactly those bytes.
+        if wire.len() > 8192 {
+            wire.truncate(8192);
+            out.label("cut-to-receive-buffer");
+        }
         // keep mutated info hashes inside this case's private hash space (bytes 1..5 of every
         // hash carry the case id): a flipped bit there would address another case's torrent
         match &dg.kind {
